@@ -68,7 +68,7 @@ C09(i) ==
       <<"C09.step_rel.instance_unchanged", e.s.ops_machine_ids = p.ops_machine_ids /\ e.s.ops_durations = p.ops_durations>> }
     \cup
     (IF Legal(p, e.a) THEN
-       LET t == Next(p, e.a) IN
+       LET t == Succ(p, e.a) IN
        { <<"C09.step_rel", A(e.s) = t>>,
          <<"C09.step_rel.step_count", e.s.step_count = t.step_count>>,
          <<"C09.step_rel.ops_mask", e.s.ops_mask = t.ops_mask>>,
